@@ -99,6 +99,9 @@ Definition req_external (n : node) (s : sweep) : list string :=
 Definition expr_sig_json (e : expr) : json :=
   JObj [("format", JStr "ExpressionSigV1"); ("ast", JStr (sig comm e))].
 
+Definition has_sweep (c : config) : bool :=
+  existsb (fun n => match n_sweep n with Some _ => true | None => false end) c.
+
 Section Ids.
 Variable U5 : string -> string.   (* s |-> str(uuid.uuid5(NAMESPACE, s)) *)
 Variable H : string -> string.    (* s |-> hashlib.sha256(s.encode()).hexdigest() *)
